@@ -14,6 +14,7 @@ import (
 	"github.com/cnotch/ipchub/provider/auth"
 	"github.com/cnotch/ipchub/service/flv"
 	"github.com/cnotch/ipchub/service/hls"
+	"github.com/cnotch/ipchub/utils"
 
 	"github.com/cnotch/apirouter"
 	"github.com/cnotch/ipchub/utils/scan"
@@ -115,6 +116,11 @@ func permissionInterceptor(w http.ResponseWriter, r *http.Request) bool {
 			streamPath = streamPath[:i]
 		}
 	}
+
+	// the handlers look the stream up under its canonical path (media.GetOrCreate);
+	// validate the same path, or "/x/../a/b" would pass a right on /x/* and play /a/b
+	// (CONNECT requests reach this handler with an uncleaned path).
+	streamPath = utils.CanonicalPath(streamPath)
 
 	if u == nil || !u.ValidatePermission(streamPath, auth.PullRight) {
 		http.Error(w, http.StatusText(http.StatusForbidden), http.StatusForbidden)
